@@ -96,6 +96,12 @@ def postprocess_attributes(
 
     """
     exponents = numpy.asarray(exponents)
+    if exponents.dtype.kind in "fc" and numpy.any(
+        exponents != numpy.rint(exponents.real)
+    ):
+        raise PolynomialConstructionError(
+            f"exponents must be integers; found {exponents.tolist()}"
+        )
     if exponents.ndim != 2:
         raise PolynomialConstructionError(
             f"expected exponents.ndim == 2; found {exponents.ndim}"
